@@ -22,8 +22,8 @@ class C20(Prop):
                    'memory-view plumbing and the C compiler are outside the model',
                    'the Windows-only replacements of libc functions (erf approximation) are not the code modelled',
                    'constant ND of the uniform prior is taken from its numeric definition (the gamma-function form is not evaluated)']
-    unproved = ['the 18 translated array kernels (station / location-sample / tensor loops of all likelihoods, ln_prod / ln_combine / ln_multipliers, scatter binning) are '
-                'evaluated against the Python paths at Float without an equality theorem; the *_gen variants, relative-amplitude loops and random generation are not '
+    unproved = ['the 20 translated array kernels (station / location-sample / tensor loops of all likelihoods, ln_prod / ln_combine / ln_multipliers, relative-amplitude loops, scatter binning) are '
+                'evaluated against the Python paths at Float without an equality theorem; the *_gen variants, relative_amplitude_loop and random generation are not '
                 'translated (listed per function in the evidence)',
                 'one-dimensional array reductions c_ln_normalise, c_dkl, c_dkl_uniform are translated (left folds) and evaluated against '
                 'ln_normalise / dkl of the Python path, without an equality theorem',
@@ -161,7 +161,7 @@ class C20(Prop):
                 yield {'kind': 'kernel', 'kernel': k, 'args': a}
         # ---- array kernels (nested loops over stations, location samples and tensors; binning)
         na = 10 if tier == 'quick' else 150
-        fams = ['pol', 'polprob', 'ar', 'pol+ar', 'polprob+ar', 'all', 'pol+polprob', 'ln_prod', 'ln_combine', 'ln_multipliers', 'bins']
+        fams = ['pol', 'polprob', 'ar', 'pol+ar', 'polprob+ar', 'all', 'pol+polprob', 'ln_prod', 'ln_combine', 'ln_multipliers', 'bins', 'rel']
         for fam in fams:
             for i in range(na):
                 c = {'kind': 'array', 'family': fam, 'kernel': 'array:' + fam, 'args': [1.0]}
@@ -187,6 +187,22 @@ class C20(Prop):
                 c['mt'] = [[mts[w][k_] for w in range(nmt)] for k_ in range(6)]
                 c['marg'] = rng.choice([0, 0, 1])
                 c['lsm'] = [0.0] * nloc if rng.random() < 0.4 else [math.log(rng.uniform(0.2, 3.0)) for _ in range(nloc)]
+                if fam == 'rel':
+                    # relative amplitudes of two events: per-station scale estimate, its combination and the ratio likelihood
+                    nst = rng.randint(1, 4)
+                    c['a1'], c['a2'] = coeff(nst), coeff(nst)
+                    mts2 = []
+                    for _w in range(nmt):
+                        g = [rng.gauss(0, 1) for _ in range(6)]
+                        nn_ = math.sqrt(sum(v * v for v in g))
+                        mts2.append([v / nn_ for v in g])
+                    c['mt2'] = [[mts2[w][k_] for w in range(nmt)] for k_ in range(6)]
+                    c['x'] = [10 ** rng.uniform(-1, 1) for _ in range(nst)]
+                    c['y'] = [10 ** rng.uniform(-1, 1) for _ in range(nst)]
+                    c['psx'] = [10 ** rng.uniform(-1.3, -0.5) for _ in range(nst)]
+                    c['psy'] = [10 ** rng.uniform(-1.3, -0.5) for _ in range(nst)]
+                    yield c
+                    continue
                 if fam in ('ln_prod', 'ln_combine', 'ln_multipliers'):
                     nst = rng.randint(1, 4)
                     lnv = lambda: rng.choice([rng.uniform(-30, 0), rng.uniform(-2, 0), NEG_INF])
@@ -310,7 +326,7 @@ class C20(Prop):
                     'ar': 'cprobability.c_amplitude_ratio_ln_pdf', 'pol+ar': 'cprobability.c_polarity_ar_ln_pdf',
                     'polprob+ar': 'cprobability.c_polarity_prob_combined_ln_pdf', 'all': 'cprobability.c_all_combined_ln_pdf',
                     'pol+polprob': 'cprobability.c_combined_pol_ln_pdf', 'ln_prod': 'cprobability.ln_prod', 'ln_combine': 'cprobability.ln_combine',
-                    'ln_multipliers': 'cprobability.ln_multipliers', 'bins': 'cscatangle.get_multipliers'}
+                    'ln_multipliers': 'cprobability.ln_multipliers', 'bins': 'cscatangle.get_multipliers', 'rel': 'cprobability.relative_amplitude_ratio_ln_pdf'}
 
     ARRAY_CALLEES = ['cprobability.station_polarity_ln_pdf', 'cprobability.station_polarity_probability_ln_pdf', 'cprobability.station_ar_ln_pdf',
                      'cprobability.station_combined_polarity_ar_ln_pdf', 'cprobability.station_combined_polarity_probability_ar_ln_pdf',
@@ -336,6 +352,16 @@ class C20(Prop):
             ang = [[[float(v) for v in np.asarray(r['TakeOffAngle']).flatten()], [float(v) for v in np.asarray(r['Azimuth']).flatten()]] for r in raw]
             return {'angles': ang, 'mult_in': [float(v) for v in rawm], 'v': [float(v) for v in bm],
                     'kept': [[float(v) for v in np.asarray(r['TakeOffAngle']).flatten()] + [float(v) for v in np.asarray(r['Azimuth']).flatten()] for r in binned]}
+        if fam == 'rel':
+            lnp, sc, su = pr.relative_amplitude_ratio_ln_pdf(A('x'), A('y'), A('mt'), A('mt2'), A('a1'), A('a2'), A('psx'), A('psy'), _use_c=False)
+            # the Python fallback of scale_estimator alone, on the same modelled amplitudes
+            mux = np.abs(np.tensordot(A('a1'), A('mt'), 1))
+            muy_same = np.abs(np.tensordot(A('a1'), A('mt2'), 1))     # the compiled scale_estimator has ONE coefficient array for both events
+            e3 = lambda v: np.expand_dims(np.expand_dims(v, 1), 1)
+            sc2, su2 = pr.scale_estimator(e3(A('x') / A('y')), mux, muy_same, e3(A('psx')), e3(A('psy')))
+            return {'v': [float(v) for v in np.asarray(lnp, dtype=float).flatten()], 'scale': [float(v) for v in np.asarray(sc, dtype=float).flatten()],
+                    'scale_s': [float(v) for v in np.asarray(su, dtype=float).flatten()], 'scale2': [float(v) for v in np.asarray(sc2, dtype=float).flatten()],
+                    'scale2_s': [float(v) for v in np.asarray(su2, dtype=float).flatten()]}
         if fam == 'ln_prod':
             # the Python fallback of every likelihood function: np.sum(ln_p, 0)
             return {'v': [float(v) for v in np.sum(A('p3'), 0).flatten()]}
@@ -388,6 +414,14 @@ class C20(Prop):
             return ['pyxi %s 0 0 0' % k]
         if fam == 'bins':
             return [self.array_request(k, {'angles': impl['angles'], 'bin_size': case['bin'], 'multipliers': impl['mult_in']})]
+        if fam == 'rel':
+            vals = {'x': case['x'], 'y': case['y'], 'mt1': case['mt'], 'mt2': case['mt2'], 'a1': case['a1'], 'a2': case['a2'], 'psx': case['psx'], 'psy': case['psy']}
+            reqs = [self.array_request(k, vals)]
+            k2 = 'cprobability.scale_estimator'
+            if k2 in self.report.get('array_kernel_params', {}):
+                # the compiled scale_estimator takes ONE coefficient array for both events
+                reqs.append(self.array_request(k2, {'x': case['x'], 'y': case['y'], 'mt1': case['mt'], 'mt2': case['mt2'], 'a': case['a1'], 'psx': case['psx'], 'psy': case['psy']}))
+            return reqs
         if fam == 'ln_prod':
             return [self.array_request(k, {'p': case['p3']})]
         if fam == 'ln_combine':
@@ -545,6 +579,31 @@ class C20(Prop):
             return [('translated kernel unavailable: %s' % replies[0][:80], None)]
         got = arrs[0] if arrs else []
         want = impl['v']
+        if fam == 'rel':
+            nst, nloc, nmt = len(case['x']), len(case['a1'][0]), len(case['mt'][0])
+            if len(arrs) != 3 or len(arrs[0]) != nst * nloc * nmt:
+                return [('relative_amplitude_ratio_ln_pdf: array kernel returned %r arrays' % ([len(a_) for a_ in arrs],), None)]
+            tot = [sum(arrs[0][(u * nloc + v) * nmt + w] for u in range(nst)) for v in range(nloc) for w in range(nmt)]
+            for nm_, g_, w_ in (('joint log-likelihood', tot, impl['v']), ('scale factor', arrs[1], impl['scale']), ('scale uncertainty', arrs[2], impl['scale_s'])):
+                if len(g_) != len(w_):
+                    return [('relative amplitudes: %s has %d values in the translated kernel, %d on the Python path' % (nm_, len(g_), len(w_)), None)]
+                for j, (m, p_) in enumerate(zip(g_, w_)):
+                    if not ((m != m and p_ != p_) or (m < -600 and p_ < -600) or close(m, p_, rtol=1e-6, atol=1e-6)):
+                        return [('relative_amplitude_ratio_ln_pdf: %s of the translated loops %r, Python path %r at flat index %d (stations %d)' % (nm_, m, p_, j, nst), None)]
+            if len(replies) > 1:
+                t2 = replies[1].split()
+                a2, i2 = [], 0
+                try:
+                    while i2 < len(t2):
+                        n2 = int(t2[i2])
+                        a2.append(reply_floats(' '.join(t2[i2 + 1:i2 + 1 + n2])) if n2 else [])
+                        i2 += 1 + n2
+                except ValueError:
+                    return [('translated kernel unavailable: %s' % replies[1][:80], None)]
+                for nm_, g_, w_ in (('scale factor', a2[0] if a2 else [], impl['scale2']), ('scale uncertainty', a2[1] if len(a2) > 1 else [], impl['scale2_s'])):
+                    if len(g_) != len(w_) or any(not ((m != m and p_ != p_) or close(m, p_, rtol=1e-6, atol=1e-9)) for m, p_ in zip(g_, w_)):
+                        return [('scale_estimator: %s of the translated loops %r, Python path %r (stations %d)' % (nm_, g_[:4], w_[:4], nst), None)]
+            return []
         if fam == 'bins':
             kept = [(m, a) for m, a in zip(got, impl['angles']) if m > 0]
             if [m for m, _a in kept] != want:
